@@ -58,14 +58,18 @@ def resets_position(c):
 
 
 def global_filters_spec(chain, until_position, origin_scope, builtin_filter):
-    """LEGB order: filters of the innermost context first, then each enclosing context, builtins last; the
-    position cut applies until (and including) the first function or module context, not beyond"""
+    """LEGB order: filters of the innermost context first, then each enclosing NON-CLASS context, builtins last;
+    the position cut applies until (and including) the first function or module context, not beyond"""
     out = []
     until = until_position
+    first = True
     for c in chain:
-        out = out + c.get_filters(until, origin_scope)
-        if resets_position(c):
-            until = None
+        # class-body rule: the names of a class body are visible in that body only, never in the scopes nested in it
+        if first or not (c.is_class() or c.is_instance()):
+            out = out + c.get_filters(until, origin_scope)
+            if resets_position(c):
+                until = None
+        first = False
     return out + [builtin_filter]
 
 
@@ -168,7 +172,7 @@ _check_flows = Contract(
 _get_global_filters = [
     Contract(
         id='C03.get_global_filters[%d]' % d, prop='C03',
-        clause='LEGB order: innermost context first, builtins last; the textual position limits visibility only '
+        clause='LEGB order: innermost context first, enclosing class bodies skipped, builtins last; the textual position limits visibility only '
                'up to the first enclosing function or module (context chains of length %d)' % d,
         file='jedi/inference/context.py', qualname='get_global_filters',
         params={'context': Opt(Obj('Ctx')), 'until_position': Opt(POS), 'origin_scope': Opt(_PN)},
@@ -178,7 +182,7 @@ _get_global_filters = [
         requires=['context == CH[0]', 'all(CH[i].parent_context == CH[i + 1] for i in range(0, len(CH) - 1))',
                   'CH[len(CH) - 1].parent_context is None',
                   'len(CH[0].inference_state.builtins_module.get_filters()) > 0'],
-        unroll={0: d + 1},
+        unroll={0: d + 1, 1: d + 1},
         ensures=['result == global_filters_spec(CH, until_position, origin_scope, '
                  'CH[0].inference_state.builtins_module.get_filters()[0])'],
     ) for d in range(1, 4)]
@@ -192,7 +196,9 @@ FAMILIES = [
            methods={'get_filters': FnSpec('Context.get_filters', params=[('until_position', Opt(POS)),
                                                                          ('origin_scope', Opt(_PN))],
                                           defaults={'until_position': None, 'origin_scope': None},
-                                          ret=Seq(Obj('FilterObj')), pure=True, assumed=True)}),
+                                          ret=Seq(Obj('FilterObj')), pure=True, assumed=True),
+                    'is_class': FnSpec('Context.is_class', ret=BOOL, pure=True, assumed=True),
+                    'is_instance': FnSpec('Context.is_instance', ret=BOOL, pure=True, assumed=True)}),
     Family('InfState03', attrs={'builtins_module': Obj('BuiltinsMod')}),
     Family('BuiltinsMod', methods={'get_filters': FnSpec('BuiltinsModule.get_filters', ret=Seq(Obj('FilterObj')),
                                                          pure=True, assumed=True)}),
